@@ -179,7 +179,7 @@ def version_attr(version):
 
 
 def response(now, assertions=(), rid='R1', issuer=IDP_A, irt='req1', dest=ACS_POST, status=STATUS_SUCCESS,
-             status2=None, status_msg=None, version='2.0', sign=None, alg='sha256', keyinfo=None, style='Z',
+             status2=None, status3=None, status_msg=None, version='2.0', sign=None, alg='sha256', keyinfo=None, style='Z',
              issue_offset=0, extensions='', has_status=True, root='Response', extra_last='', digalg=None):
     at = ' ID="%s"%s IssueInstant="%s"' % (esca(rid), version_attr(version), ts(now + issue_offset, style))
     if irt is not None:
@@ -193,7 +193,8 @@ def response(now, assertions=(), rid='R1', issuer=IDP_A, irt='req1', dest=ACS_PO
     if has_status:
         inner = ''
         if status2 is not None:
-            inner = '<samlp:StatusCode Value="%s"/>' % esca(status2)
+            third = '<samlp:StatusCode Value="%s"/>' % esca(status3) if status3 is not None else ''
+            inner = '<samlp:StatusCode Value="%s">%s</samlp:StatusCode>' % (esca(status2), third) if third else '<samlp:StatusCode Value="%s"/>' % esca(status2)
         code = '<samlp:StatusCode Value="%s">%s</samlp:StatusCode>' % (esca(status), inner) if status is not None else ''
         msg = '<samlp:StatusMessage>%s</samlp:StatusMessage>' % esc(status_msg) if status_msg is not None else ''
         st = '<samlp:Status>%s%s</samlp:Status>' % (code, msg)
